@@ -702,6 +702,16 @@ impl IdmServerProxyWriteTransaction<'_> {
             missing_scim.remove(&entry.get_uuid());
         });
 
+        // A sync agreement must never create entries in the reserved system uuid range. The
+        // stubs are made with an internal create, which is exempt from that check.
+        if let Some(u) = missing_scim
+            .keys()
+            .find(|u| **u < DYNAMIC_RANGE_MINIMUM_UUID)
+        {
+            error!("Unable to proceed: entry uuid {} is within the reserved system range. You must re-map this entries uuid in the sync connector to proceed.", u);
+            return Err(OperationError::InvalidEntryState);
+        }
+
         // For entries that do not exist, create stub entries. We don't create the external ID here
         // yet, because we need to ensure that it's unique.
         let create_stubs: Vec<EntryInitNew> = missing_scim
